@@ -23,7 +23,8 @@ Definition lease_of (os : list (N * list N)) : N :=
   match find (fun o => fst o =? OPTION_LEASETIME) os with Some o => be_decode (snd o) | None => 0 end.
 
 Definition final_table (req : request) (walked : table) (lease : N) : table :=
-  if msgtype req =? 1 then tset OPTION_SERVERID (Some (be32 (r_serverip req))) walked
+  if msgtype req =? 1 then
+    tset OPTION_LEASETIME (Some (be32 lease)) (tset OPTION_SERVERID (Some (be32 (r_serverip req))) walked)
   else tset OPTION_LEASETIME (Some (be32 lease))
          (tset OPTION_SERVERID
             (Some (match ropt OPTION_SERVERID req with
